@@ -91,8 +91,12 @@ class Gen:
             opts = []
             if kind == "dataclass":
                 opts = r.choice([[], [], ["frozen"], ["slots"], ["kw_only"], ["frozen", "slots"]])
+            extras = []
+            if kind in ("dataclass", "plain"):
+                extras = r.choice([[], [], [], [], [], [], [], ["call"], ["classvar_self"], ["call", "classvar_self"]])
             prog["classes"].append({"id": cid, "name": name, "qualname": qual, "module": module, "kind": kind,
-                                    "opts": opts, "fields": [], "required": [], "defaults": [], "members": [], "mixin": "none"})
+                                    "opts": opts, "fields": [], "required": [], "defaults": [], "members": [], "mixin": "none",
+                                    "extras": extras})
         self.struct_ids = list(range(first_cls, len(prog["classes"])))
         self.enum_ids = list(range(0, first_cls))
         for cid in self.struct_ids:
